@@ -778,6 +778,8 @@ def record_trace(cfg, K=K_QUICK):
     except Exception as ex:
         return [{"id": tid, "harness_error": "make_input: %r" % (ex,)}]
     caps = cfg.get("caps") or list(range(0, K + 1))
+    if cfg["alg"] == "cmtf":
+        caps = [k for k in caps if k > 0]     # cmtf(n_iter_max=0) dies with UnboundLocalError on the unchanged tree (no listed property; DESIGN 12)
     prev_dense = None
     for k in caps:
         ev = {"id": "%s/k%d" % (tid, k), "tr": tid, "ev": "Prefix", "k": k}
